@@ -394,4 +394,10 @@ EmitNow == /\ hist # <<>>
                 /\ \/ Len(hist) = Len(p) + Depth
                    \/ Progress /\ Len(hist) > Len(p) /\ ~hist[Len(hist)].chg
 Emit == ~EmitNow \/ (PrintT(<<"B", ToJson(hist)>>) /\ FALSE)
+
+\* simulation (tlc -simulate): no CONSTRAINT (the simulator evaluates a constraint on every candidate
+\* successor and would print them all); a finished behaviour is printed by a stuttering step instead
+SimNext == \/ ~EmitNow /\ Next
+           \/ EmitNow /\ PrintT(<<"B", ToJson(hist)>>) /\ UNCHANGED vars
+SimSpec == Init /\ [][SimNext]_vars
 =============================================================================
